@@ -368,8 +368,32 @@ package keeper
 //@   ensures [due-entry-not-refused] validator.Status == 1 && (!validator.Jailed || featAt("NCUST", ctxHeight(ctx)) || tm3()) ==> result == nil
 //@   ensures [jailed-only-after-upgrade] result == nil && validator.Jailed ==> featAt("NCUST", ctxHeight(ctx)) || tm3()
 
+// removing a node from the unstaking queue: the list stored back for its completion time holds
+// NO occurrence of the node's address (the queue can hold the same address several times: every
+// rewrite of an unstaking record appends it again); an emptied list is deleted
+//@ ghost uqWriteN int
+//@ ghost lastUqWrite []types.Address
+//@ ghost uqDropN int
+//@ func (Keeper).getUnstakingValidators
+//@   trusted store read + codec: the address list stored for that completion time (fresh)
+//@   pure_fn
+//@   ensures len(valAddrs) >= 0
+//@ func (Keeper).setUnstakingValidators
+//@   trusted call event: the address list written for that completion time (store + codec not modelled)
+//@   modifies uqWriteN, lastUqWrite
+//@   ensures uqWriteN == old(uqWriteN) + 1 && lastUqWrite == keys
+//@ func (Keeper).deleteUnstakingValidators
+//@   trusted call event: the queue entry of that completion time is deleted
+//@   modifies uqDropN
+//@   ensures uqDropN == old(uqDropN) + 1
 //@ func (Keeper).deleteUnstakingValidator
-//@   trusted KV-store effect only (unstaking queue maintenance, see C21): no Go object visible to the caller is modified
+//@   props C21
+//@   modifies uqWriteN, lastUqWrite, uqDropN
+//@   ensures [every-occurrence-removed] uqWriteN != old(uqWriteN) ==> uqWriteN == old(uqWriteN) + 1 && uqDropN == old(uqDropN) && (forall j int :: 0 <= j && j < len(lastUqWrite) ==> !(bytes(lastUqWrite[j]) == old(bytes(val.Address))))
+//@   ensures [written-or-dropped] uqWriteN == old(uqWriteN) ==> uqDropN == old(uqDropN) + 1
+//@   loop 0 invariant 0 - 1 <= rangeindex && rangeindex < len(validators) && uqWriteN == old(uqWriteN) && uqDropN == old(uqDropN)
+//@   loop 0 invariant forall j int :: 0 <= j && j < len(newValidators) ==> !(bytes(newValidators[j]) == old(bytes(val.Address)))
+//@   loop 0 invariant frame_old_elems(newValidators) && ((len(newValidators) == 0 && cap(newValidators) == 0) || fresh(newValidators))
 //@ func (Keeper).SetUnstakingValidator
 //@   trusted call event: the node is appended to the unstaking-queue entry of its completion time (store + codec not modelled)
 //@   modifies uqSetN, lastUqSetAddr
@@ -395,7 +419,7 @@ package keeper
 //@ func (Keeper).FinishUnstakingValidator
 //@   props C24,C19,C12
 //@   requires validator.Status == 1
-//@   modifies bankSendN, bankSendTo, bankSendFrom, bankSendCoins, bankSendOK, lastSetVal, lastSetValStake, setValN, lastSetValAddr, idxSetN, lastIdxSetAddr, lastIdxSetPower, uqSetN, lastUqSetAddr, kvHas, kvVal, bigv
+//@   modifies bankSendN, bankSendTo, bankSendFrom, bankSendCoins, bankSendOK, lastSetVal, lastSetValStake, setValN, lastSetValAddr, idxSetN, lastIdxSetAddr, lastIdxSetPower, uqSetN, lastUqSetAddr, kvHas, kvVal, bigv, uqWriteN, lastUqWrite, uqDropN
 //@   ensures [bigv-kept] forall p int {bigv[p]} :: isold(p) ==> bigv[p] == old(bigv[p])
 //@   ensures [returns-stake-once] bankSendN == old(bankSendN) + 1 && bankSendFrom == "staked_tokens_pool" && singleAmt(bankSendCoins) == old(bigv[validator.StakedTokens.i])
 //@   ensures [to-output-address] old(valHas[bytes(validator.Address)]) ==> bankSendTo == ite(old(valOutNil[bytes(validator.Address)]), bytes(validator.Address), old(valOut[bytes(validator.Address)]))
